@@ -30,7 +30,10 @@ def shards(tier):
            {"name": "classes", "mode": "jit", "backend": "both", "fn": "classes", "n": 60 if q else 2500},
            {"name": "circuits", "mode": "jit", "backend": "both", "fn": "circuits", "n": 25 if q else 1000},
            {"name": "kernels.interp", "mode": "interp", "backend": "both", "fn": "kernels", "n": 80 if q else 2000, "grid": False},
-           {"name": "classes.interp", "mode": "interp", "backend": "both", "fn": "classes", "n": 30 if q else 800}]
+           {"name": "classes.interp", "mode": "interp", "backend": "both", "fn": "classes", "n": 30 if q else 800},
+           {"name": "kernels.big", "mode": "jit", "backend": "both", "fn": "kernels", "n": 16 if q else 400, "grid": False,
+            "Ns": [16, 31, 32, 33, 63, 64, 65, 70, 128, 130]},
+           {"name": "classes.big", "mode": "jit", "backend": "both", "fn": "classes", "n": 6 if q else 120, "Ns": [12, 16, 33, 64, 65, 70]}]
     if not q:
         for k in range(4):
             out.append({"name": "kernels.%d" % k, "mode": "jit", "backend": "both", "fn": "kernels", "n": 6000, "grid": False})
@@ -154,9 +157,11 @@ def run_kernels(shard, rec, NB, TB):
                     both(rec, "k.acq", c, lambda: U.acq(a(g1), a(g2)), lambda: V.acq(t(g1), t(g2)), NB, TB, bool(g1.any() and g2.any()))
                     both(rec, "k.ipow", c, lambda: U.ipow(a(g1), a(g2)), lambda: V.ipow(t(g1), t(g2)), NB, TB, bool(g1.any() and g2.any()))
     for it in range(shard["n"]):
-        N = int(rng.integers(1, 9))
+        N = int(rng.integers(1, 9)) if not shard.get("Ns") else int(shard["Ns"][it % len(shard["Ns"])])
         g1, g2 = gen.rand_string(rng, N), gen.rand_string(rng, N)
-        L = int(rng.integers(1, 7))
+        if shard.get("Ns") and it % 2:
+            g1, g2 = gen.sparse_string(rng, N), gen.sparse_string(rng, N)
+        L = int(rng.integers(1, 7)) if not shard.get("Ns") or it % 3 else int(gen.BIG_LS[it % len(gen.BIG_LS)] // (4 if N > 40 else 1))
         gs, ps = gen.rand_list(rng, L, N), rng.integers(0, 4, L)
         c = {"N": N, "g1": O.g2s(g1), "g2": O.g2s(g2), "list": [O.show(x, y) for x, y in zip(gs, ps)]}
         nz = gen.rand_nonid(rng, N)
@@ -237,7 +242,7 @@ def run_kernels(shard, rec, NB, TB):
 def run_classes(shard, rec, NB, TB):
     rng = gen.rng_for(rec)
     for it in range(shard["n"]):
-        N = int(rng.integers(1, 7))
+        N = int(rng.integers(1, 7)) if not shard.get("Ns") else int(shard["Ns"][it % len(shard["Ns"])])
         g, p = gen.rand_string(rng, N), int(rng.integers(4))
         h, q = gen.rand_string(rng, N), int(rng.integers(4))
         s1 = ['', '+', '-', 'i', '-i', '+i'][int(rng.integers(6))] + O.g2s(g)
